@@ -6,8 +6,12 @@ def run(tier):
     sz = J.sizes(tier)
     jobs = [("next:N=%d,T=%d" % s, J.job_transition, {"N": s[0], "T": s[1], "which": "next"}) for s in sz]
     jobs += [("prev:N=%d,T=%d" % s, J.job_transition, {"N": s[0], "T": s[1], "which": "prev"}) for s in sz]
+    # query instants finer (or coarser) than a second: the public templates reduce them to whole seconds before calling the code above
+    from . import c18
+    jobs += [("glue-%s:%s" % (w, n), c18.job_glue, {"name": n, "which": w}) for n in c18.GLUE for w in ("next", "prev")]
     return J.run_property("C11", tier, jobs, {"next": "next", "prev": "prev"},
         "SMT over every int64 query instant and every well-formed table (equivalent neighbours and a sentinel entry included) of the stated sizes.",
-        ["tables N x T in %s" % sz], outside=["chains of calls: they follow point-wise from the single-call statement"],
-        extra_assumptions=["an entry at or before -2^59 carries a type equivalent to the default type (true for Load's sentinel and zic's big-bang entry)"])
+        ["tables N x T in %s" % sz, "time_point<D> queries for D in %s: next_transition forwards floor(tp), prev_transition ceil(tp)" % list(c18.GLUE)],
+        outside=["chains of calls: they follow point-wise from the single-call statement"],
+        extra_assumptions=["an entry at -2^59 is the sentinel Load adds or zic's big-bang entry: never reported; the type in force before the first real entry is then the default type"])
 if __name__ == "__main__": sys.exit(run(sys.argv[1] if len(sys.argv) > 1 else "quick"))
